@@ -52,6 +52,7 @@ TABLE = {
  "C06-d": ("C06", "_random keeps one Generator(Philox()) per thread and re-keys it through the bit generator's state dictionary (key, counter, buffer_pos) without clearing the cached 32-bit half (has_uint32/uinteger): needs float32 random blocks with an ODD number of elements followed by another float32 block on the same worker, compared with another schedule (fresh process, other order, repetition) -> different values for the same block"),
  "C15-d": ("C15", "the list/stream branch of apply_blockwise_key_func returns the predecessor key function's FunctionArgs without re-labelling it with the array name: needs a predecessor made by the two-op fuse() (which labelled with the fused-away intermediate array until fix 1edd166) fused again under a list/stream reader (simple_optimize_dag then multiple_inputs_optimize_dag + sum/concat) -> the fused function is skipped, raw blocks are passed. On the repaired tree the change is harmless"),
  "C07-d": ("C07", "already_computed returns the verdict of the FIRST output only ('outputs are complete together'): needs a multi-output operation, an earlier run that died between the two chunk writes of one task, resume=True and a consumer of the later output -> the producer is skipped and the consumer reads fill values (same mechanism as C09-a, found independently for C07)"),
+ "C19-d": ("C19", "check_array_specs compares the operands' Specs by identity instead of equality ('arrays in a computation share one Spec object'): needs two operands whose Specs are equal but distinct objects (a Spec constructed afresh per creation call, a default-configuration leaf combined with an explicit Spec equal to the configuration, default leaves created across raise_if_computes()) -> 'Arrays must have same spec' although the same settings through one object are accepted"),
  "C12-d": ("C12", "_partial_reduce skips reduce_func when initial_func is given ('already reduced'): needs a reduction whose `func` is a pre-processing map rather than a reduction (cubed.core.reduction(x, square, combine_func=sum)) and a group of exactly one block with extent > 1 on the reduced axis (numblocks % split_every == 1) -> the task writes an un-reduced block into a size-1 region; zarr truncates it silently"),
 }
 # seeds that were re-evaluated after strengthening: confirm.log holds the LATER run; what the first evaluation gave is recorded here
@@ -70,6 +71,8 @@ FIRST = {
  "C20-c": {"C20": {"exit": 0, "violation_lines": 0}},
  "C06-c": {"C06": {"exit": 0, "violation_lines": 0}},
  "C06-d": {"C06": "exit 3 (harness-error: the key-recording RNG stub met `SInt >> int` in the seeded code; no VIOLATION line) -- a broken check, not a detection"},
+ "C19-d": {"C19": {"exit": 0, "violation_lines": 0}, "C18": {"exit": 1, "violation_lines": 92}},
+ "C07-d": {"C07": {"exit": 0, "violation_lines": 0, "inconclusive": 1}, "C09": {"exit": 1, "violation_lines": 19}},
  "C15-d": {"C15": "not run before strengthening (no fusion tree had a predecessor made by the two-op fuse(): miss by inspection)"},
  "C12-d": {"C12": "not run before strengthening (no scenario passes a user reduction whose func is a map: miss by inspection)"},
  "C15-c": {"C15": "not run before strengthening (the report named the blind spot: patterns used distinct array names; miss by construction)"},
